@@ -261,6 +261,15 @@ class GenCtx:
         self.pending_kinds[i] = "A"
         return i
 
+    def fresh_coo(self, arr) -> int:
+        """Schedule a new loose scipy COO matrix on the heap; returns the id it will get."""
+        i = self._next
+        self._next += 1
+        st = {"op": "new_coo", "operands": [], "k": [], "data": enc(np.asarray(arr)), "out": [i]}
+        self.pre.append(st)
+        self.pending_kinds[i] = "SP"
+        return i
+
     def pick(self, kind, pred=None, exclude=()):
         ids = [i for i in self.heap.ids(kind, pred) if i not in exclude]
         return self.g.choice(ids) if ids else None
